@@ -171,6 +171,9 @@ func (w *Writer) recoverTail() error {
 		// There were no commit frames found at all. This segment file is
 		// effectively empty. Init it that way ready for appending. This overwrites
 		// the file header so it doesn't matter if it was valid or not.
+		if err := w.eraseFrom(0); err != nil {
+			return err
+		}
 		return w.initEmpty()
 	}
 
@@ -203,7 +206,10 @@ func (w *Writer) recoverTail() error {
 		w.writer.indexStart = finalCommit.indexStart
 
 		// Since at least one commit was found, the header better be valid!
-		return validateFileHeader(*readInfo, w.info)
+		if err := validateFileHeader(*readInfo, w.info); err != nil {
+			return err
+		}
+		return w.eraseFrom(int64(w.writer.writeOffset))
 	}
 
 	// Last frame was a commit frame! Let's check that all the data written in
@@ -227,13 +233,19 @@ func (w *Writer) recoverTail() error {
 		w.writer.indexStart = finalCommit.indexStart
 
 		// Since at least one commit was found, the header better be valid!
-		return validateFileHeader(*readInfo, w.info)
+		if err := validateFileHeader(*readInfo, w.info); err != nil {
+			return err
+		}
+		return w.eraseFrom(int64(w.writer.writeOffset))
 	}
 
 	// Last commit was incomplete rewind back to the previous one or start of file
 	if prevCommit == nil {
 		// Init wil re-write the file header so it doesn't matter if it was corrupt
 		// or not!
+		if err := w.eraseFrom(0); err != nil {
+			return err
+		}
 		return w.initEmpty()
 	}
 
@@ -243,7 +255,58 @@ func (w *Writer) recoverTail() error {
 	w.writer.indexStart = prevCommit.indexStart
 
 	// Since at least one commit was found, the header better be valid!
-	return validateFileHeader(*readInfo, w.info)
+	if err := validateFileHeader(*readInfo, w.info); err != nil {
+		return err
+	}
+	return w.eraseFrom(int64(w.writer.writeOffset))
+}
+
+// eraseFrom durably zeroes every non-zero byte at or after offset. Recovery
+// calls it with the offset new appends will continue from: whatever lies beyond
+// is the remains of a write that never completed. If it were left in place a
+// later torn write could combine with it into frames that look committed, so
+// it has to be gone (and known to be gone on disk) before the file is reused.
+func (w *Writer) eraseFrom(offset int64) error {
+	buf := make([]byte, minBufSize)
+	first, last := int64(-1), int64(-1)
+	for off := offset; ; {
+		n, err := w.wf.ReadAt(buf, off)
+		for i := 0; i < n; i++ {
+			if buf[i] != 0 {
+				if first < 0 {
+					first = off + int64(i)
+				}
+				last = off + int64(i)
+			}
+		}
+		off += int64(n)
+		if err == io.EOF || (err == nil && n == 0) {
+			break
+		}
+		if err != nil {
+			return err
+		}
+	}
+	if first < 0 {
+		return nil
+	}
+	// Keep writes aligned to whole frame-header sized words like all others.
+	first -= first % frameHeaderLen
+	last += frameHeaderLen - last%frameHeaderLen
+	for i := range buf {
+		buf[i] = 0
+	}
+	for off := first; off < last; {
+		n := int64(len(buf))
+		if last-off < n {
+			n = last - off
+		}
+		if _, err := w.wf.WriteAt(buf[:n], off); err != nil {
+			return err
+		}
+		off += n
+	}
+	return w.wf.Sync()
 }
 
 // Close implements io.Closer
